@@ -372,7 +372,7 @@ PROPS["C03"] = {
     "assumptions": ["a panic inside a dependency reached through the public API counts (the property is about the public operation); such locations are listed as known findings when the repository cannot repair them",
                     "unbounded loops are caught only by the per-run watchdog (reported inconclusive, never as a violation)"],
     "manifest": {
-        "technique": "runtime monitoring: catch_unwind call wrappers over an API storm and over every other monitor's workload in an overflow-checking, debug-asserting build; broken calls keyed by panic location",
+        "technique": "runtime monitoring: catch_unwind call wrappers over an API storm and over every other monitor's workload in an overflow-checking, debug-asserting build; broken calls keyed by panic location; shard deaths and non-termination decided by isolated replay with a CPU budget",
         "text": "Every call the harness makes into the crate runs under catch_unwind in a build with integer-overflow checks and debug assertions; panics and internal-assertion errors are recorded with their source location. C03 drives a dedicated storm (arbitrary strings into every parser, hostile finite arguments and random option combinations into every public method, pathological provider tables) and additionally harvests the records of all other monitors' workloads. A clean run means none of the calls made broke; calls not made are not covered.",
         "note": "The FFI layer's calls are exercised by C19's workload (harvested here in the chk build); no Rust-side memory-safety tool is used because no unsafe code lies on these paths (DESIGN.md 0.2); the C++ bindings run under clang ASan+UBSan in C19's thorough tier.",
     },
@@ -393,7 +393,7 @@ PROPS["C19"] = {
                     "Now::* wrappers read the system clock and are not paired; PlainDate::to_zoned_date_time of src/builtins/compiled/date.rs is not compiled into the crate",
                     "the quick tier calls the extern functions' Rust bodies; the generated C++ headers and the C ABI are exercised by the thorough tier's C++ leg (a subset of the functions: constructors, accessors, arithmetic, rounding, formatting of the seven value types)"],
     "manifest": {
-        "technique": "runtime monitoring: differential pairing of every wrapper call with the core call it stands for (value through accessors, or error kind), two builds",
+        "technique": "runtime monitoring: differential pairing of every wrapper call with the core call it stands for (value through accessors, or error kind), two builds; thorough tier adds sanitizer legs: the C++ bindings over the real C ABI under clang AddressSanitizer + UndefinedBehaviorSanitizer, and a reduced run of the pairing under Miri",
         "text": "Each convenience-API method and each FFI function is executed next to the core method it forwards to, with the same generated receiver, arguments and option variants, and the two outcomes must agree. Accessors are compared on values whose fields differ, so a wrapper wired to a neighbouring field shows. The evidence lists how many distinct functions were paired.",
         "note": "Trusted: the core (verified by the other checks). A pair in which either side panics is counted inconclusive here and reported by C03.",
     },
@@ -413,7 +413,7 @@ PROPS["C20"] = {
     "assumptions": ["what a call 'returns alone' is the provider-taking twin on a thread-owned FsTzdbProvider (its answers do not depend on history: C15)",
                     "a stall is judged on logical progress counters with a 90 s window (each call takes microseconds), not on a deadline for the whole workload"],
     "manifest": {
-        "technique": "runtime monitoring: multi-threaded stress with contention and panic injection through hooks, per-call comparison with a thread-owned provider, logical-progress stall monitor; completion orders recorded",
+        "technique": "runtime monitoring: multi-threaded stress with contention and panic injection through hooks, per-call comparison with a thread-owned provider, logical-progress stall monitor; completion orders recorded; thorough tier re-runs the workload in a ThreadSanitizer build",
         "text": "Threads call the convenience API concurrently over colliding and cold/warm zones while a chaos thread injects lock contention and panics that happen while the shared provider is held. Each call's result is compared with the same operation on a provider the thread owns alone, calls after faults must still succeed, and a progress monitor turns a wedged provider into a reported stall. Evidence records the number of calls, thread switches and distinct completion-order prefixes observed. Holds on the interleavings produced; not an exploration of all schedules.",
         "note": "The code under test contains no unsafe code on this path (a Mutex around a RefCell cache), so a race detector has nothing to flag unless a change introduces unsafe; see DESIGN.md for the ThreadSanitizer leg's status.",
     },
